@@ -51,6 +51,8 @@ type parseJob struct {
 	Text    string `json:"text"`
 	Pkg     string `json:"pkg"`
 	Scratch string `json:"scratch"`
+	// CUE only: simplecue.Config.ForceNamedEnvelope
+	Envelope string `json:"envelope"`
 }
 
 func parseSchema(job parseJob) (*ast.Schema, error) {
@@ -77,7 +79,7 @@ func parseSchema(job parseJob) (*ast.Schema, error) {
 		if val.Err() != nil {
 			return nil, val.Err()
 		}
-		return simplecue.GenerateAST(val, simplecue.Config{Package: job.Pkg})
+		return simplecue.GenerateAST(val, simplecue.Config{Package: job.Pkg, ForceNamedEnvelope: job.Envelope})
 	}
 	return nil, fmt.Errorf("unknown format %s", job.Format)
 }
